@@ -208,4 +208,6 @@ def run(repo='/repo', tier='quick'):
     slots = ('parse_request_line', 'process_request_header', 'parse_response_line', 'process_response_header')
     coupdate.run(db, res, 'C02.g', [('htp_cfg_t', a, b, 5, 'every personality fills all four parser slots') for a in slots for b in slots if a != b] + [('htp_base64_decoder', 'step', 'plainchar', 4, 'the base64 decoder moves to its next step with the carry bits of that step'), ('htp_base64_decoder', 'plainchar', 'step', 4, 'the base64 decoder moves to its next step with the carry bits of that step')],
                   'fields that change together: every server personality sets all four parser slots (request line, request header, response line, response header); a personality that leaves one unset keeps the previous personality\'s parser for that part')
+    from . import lockstep
+    lockstep.run(db, res, 'C02.h')
     return res
